@@ -120,6 +120,8 @@ struct Fault {
     bad: Op,
     /// the same request with the mistake corrected
     good: Option<Op>,
+    /// valid operations that shape the store before the invalid request
+    setup: Vec<Op>,
 }
 
 fn absent() -> Ref {
@@ -139,7 +141,30 @@ fn faults_for(rng: &mut Rng, g: &mut Gen, m: &Model) -> Vec<Fault> {
     // a request that brings new things: fresh data (new key or new set), fresh text selection
     let fresh_data = DataReq { set: Ref::Id(g.fresh_id(rng, "s")), id: Ref::None, key: Ref::Id(g.fresh_id(rng, "k")), value: DataValue::String("fresh".into()) };
     let fresh_key_existing_set = m.sets.values().next().map(|s| DataReq { set: Ref::Id(s.id.clone()), id: Ref::None, key: Ref::Id(g.fresh_id(rng, "k")), value: DataValue::Int(7) });
-    let mut push = |name: &'static str, bad: Op, good: Option<Op>| out.push(Fault { name, bad, good });
+    // a valid target that is already known, and listed in the position index after a longer selection with the same begin
+    if let Some(r) = m.resources.values().find(|r| r.text.len() >= 3) {
+        let len = r.text.len();
+        let b = rng.below(len - 2);
+        let e1 = len;
+        let e2 = b + 1 + rng.below(len - b - 1);
+        if e2 < e1 {
+            let ann = |e: usize, data: Vec<DataReq>| Op::Annotate(AnnReq { id: None, target: Some(SelReq::Text(Ref::Id(r.id.clone()), Off::simple(b, e))), data });
+            if let Some(s) = m.sets.values().next() {
+                // a reference to existing data by an id that does not exist
+                // (alone: data items before it would be inserted first, which is the recorded finding)
+                let bad_data = vec![DataReq { set: Ref::Id(s.id.clone()), id: Ref::Id("no-such-data".into()), key: Ref::None, value: DataValue::Null }];
+                out.push(Fault { name: "known-shadowed-target+unknown-data-id", bad: ann(e2, bad_data), good: Some(ann(e2, req.data.clone())), setup: vec![ann(e1, vec![]), ann(e2, vec![])] });
+            }
+            // the known selection as the first member of a complex selector whose last member is out of range
+            out.push(Fault {
+                name: "known-shadowed-member+invalid-last-member",
+                bad: Op::Annotate(AnnReq { id: None, target: Some(SelReq::Composite(vec![SelReq::Text(Ref::Id(r.id.clone()), Off::simple(b, e2)), SelReq::Text(Ref::Id(r.id.clone()), Off::simple(len + 1, len + 2))])), data: vec![] }),
+                good: Some(ann(e2, req.data.clone())),
+                setup: vec![ann(e1, vec![]), ann(e2, vec![])],
+            });
+        }
+    }
+    let mut push = |name: &'static str, bad: Op, good: Option<Op>| out.push(Fault { name, bad, good, setup: Vec::new() });
 
     // invalid targets (with the data of the valid request, plus data that is new to the store)
     let mut with_new_data = req.clone();
@@ -244,6 +269,13 @@ fn single_faults(rep: &mut Report, rng: &mut Rng, h: &mut History, g: &mut Gen, 
     let mut faults = faults_for(rng, g, &h.model);
     rng.shuffle(&mut faults);
     for f in faults.into_iter().take(nfaults) {
+        for op in &f.setup {
+            if h.step(op).agreement.in_step() {
+                ok_ops.push(op.clone());
+            } else {
+                *h = twin_of(ok_ops, milestone, shrink);
+            }
+        }
         let Some(before) = snapshot(&h.store) else { return false };
         // the model decides whether the request must be refused
         let r = h.step(&f.bad);
